@@ -587,6 +587,72 @@ def rule_s12(ctx, F):
                     "ts_node_first_child_for_byte returns no child for a byte inside a hidden child's trailing hidden token" % (show(c)[:80], iterated, subj[0] if subj else "?"), {"site": fn.loc((bid, 0))})
 
 
+def rule_s14(ctx, F):
+    """S14: "position unknown" is absorbing while a cursor walks backwards.  length_backtrack(a, b) answers
+    LENGTH_UNDEFINED when `b` spans a line break *or `a` is already undefined*; goto_previous_sibling recomputes the
+    position from the parent only if the iterator's position is still the undefined sentinel when the walk stops.
+    Subtracting from the sentinel turns it into an ordinary-looking wrong position, which the cursor then reports for a
+    node whose identity is right (start byte 4294967294 …) — the cursor and ts_node_child disagree."""
+    fn = ctx.need_fn(F, "length_backtrack", "S14")
+    if not fn:
+        return
+    a = fn.params[0]["name"] if fn.params else "a"
+    b = fn.params[1]["name"] if len(fn.params) > 1 else "b"
+    computed = [pt for pt, e in fn.points() if e.get("k") == "ret" and e.get("e") is not None and "LENGTH_UNDEFINED" not in show(e["e"])]
+    ctx.floor("computed results of length_backtrack", len(computed), 1)
+    ctx.gate("S14", fn, computed, [
+        ("a position is computed only from a known position", "length_is_undefined(%s)" % a, False),
+        ("…and only across a distance without a line break", [("%s.extent.row != 0" % b, False), ("%s.extent.row == 0" % b, True), ("%s.extent.row > 0" % b, False)]),
+    ], accept_desc="computing a position by subtraction")
+
+
+def rule_s15(ctx, F):
+    """S15: the two child iterators are mirror images.  goto_next_sibling and goto_previous_sibling run the same loop with
+    ts_tree_cursor_child_iterator_next / _previous; whatever the forward iterator records in the cursor entry (subtree,
+    position, child index, structural child index, descendant index) and keeps up to date in the iterator, the backward
+    one records and keeps up to date as well — an entry field it leaves out is zero after goto_previous_sibling
+    (ts_tree_cursor_current_descendant_index answers 0, and a later descent continues from that base).  And stepping back
+    over a child changes the structural index iff *that* child (the one stepped onto) is not an extra."""
+    from cstores import stores
+    nx = ctx.need_fn(F, "ts_tree_cursor_child_iterator_next", "S15")
+    pv = ctx.need_fn(F, "ts_tree_cursor_child_iterator_previous", "S15")
+    if not nx or not pv:
+        return
+
+    def state_fields(fn):
+        out = set()
+        for pt, n, l, op in stores(fn):
+            l = strip(l)
+            if l.get("k") == "mem" and l.get("rec") == "CursorChildIterator":
+                out.add(l.get("f"))
+        return out
+    # (that both iterators fill the same entry fields is C06.F1's field-coverage instance)
+    sf_n, sf_p = state_fields(nx), state_fields(pv)
+    ctx.floor("iterator fields advanced by the forward iterator", len(sf_n), 4)
+    if sf_n - sf_p:
+        ctx.bad("S15", "child_iterators:state-fields-agree", "ts_tree_cursor_child_iterator_previous does not step %s back (the forward iterator advances %s): the value handed to the next entry is stale" % (
+            sorted(sf_n - sf_p), sorted(sf_n)), {"function": pv.name})
+    else:
+        ctx.ok("S15", "child_iterators:state-fields-agree", "both iterators keep %s up to date" % sorted(sf_n))
+    # the structural index counts the non-extra children *before* a child: stepping onto the previous child decrements it iff
+    # that child is not an extra (whether the child being left is an extra does not matter)
+    dec = [pt for pt, n, l, op in stores(pv) if strip(l).get("k") == "mem" and strip(l).get("f") == "structural_child_index" and op in ("--", "post--", "pre--", "-=")]
+    if not dec:
+        ctx.bad("S15", "child_iterator_previous:structural-index-follows-the-child-stepped-onto", "ts_tree_cursor_child_iterator_previous no longer decrements the structural child index")
+        return
+    # the local that holds the child stepped onto: defined as children[self->child_index] *after* the decrement of child_index
+    cand = None
+    for pt, e in pv.points():
+        for n in own_walk(e):
+            if n.get("k") == "decl" and n.get("t") == "Subtree" and n.get("init") is not None and "child_index" in show(n["init"]):
+                cand = n.get("name")
+    if not cand:
+        ctx.bad("S15", "child_iterator_previous:structural-index-follows-the-child-stepped-onto", "the local holding the child stepped onto (Subtree x = children[self->child_index]) was not found")
+        return
+    ctx.gate("S15", pv, dec, [("the structural index is stepped back only when the child stepped onto is not an extra", "ts_subtree_extra(%s)" % cand, False)],
+             accept_desc="decrementing the structural child index")
+
+
 def rule_s13(ctx, F):
     """S13: for the smallest-descendant search a node is "empty" when its *content* is empty (start == end).  An empty
     node may end exactly at the start of the searched range; whether it does is a question about where the node starts
@@ -707,6 +773,8 @@ def run(ctx):
         rule_s11(ctx, F)
         rule_s12(ctx, F)
         rule_s13(ctx, F)
+        rule_s14(ctx, F)
+        rule_s15(ctx, F)
         rule_v1(ctx, F)
     return ctx.finish(
         "Sibling-agreement (CFG isomorphism under substitution), field-coverage and index-width rules over node.c / tree_cursor.c: byte- and point-range "
